@@ -13,3 +13,4 @@ import Dalek.Props.C01.VecFormulas
 import Dalek.Props.C01.FiatHistory51
 import Dalek.Props.C01.FiatHistory26
 import Dalek.Props.C01.FiatBytes51
+import Dalek.Props.C01.FiatBytes26
